@@ -157,7 +157,19 @@ impl WorldC {
             } else {
                 // a replica starts as an import of the primary's state
                 let blob = bincode::serialize(&w.servers[0].server.get_private_key()).map_err(|e| Violation::new("c.setup", "export", e.to_string()))?;
-                let mut server = ctx.os.with_node(node as u64, || pp::Server::new(vec![])).map_err(|e| Violation::new("c.setup", "server_new", e.to_string()))?;
+                // ... either straight away (an empty server), or after it has been up and serving under a key of its
+                // own: whatever a server memoised while answering before the import must not survive it
+                let warm = ctx.ch.chance(1, 2);
+                let reg = if cfg.registration.is_empty() { cfg.tags.clone() } else { cfg.registration.clone() };
+                let mut server = ctx.os.with_node(node as u64, || pp::Server::new(if warm { reg.clone() } else { vec![] })).map_err(|e| Violation::new("c.setup", "server_new", e.to_string()))?;
+                if warm {
+                    let (wp, _) = ctx.os.with_node(node as u64, || pp::Client::blind(b"warm-up"));
+                    for md in &reg {
+                        let _ = ctx.os.with_node(node as u64, || server.eval(&wp, *md, false));
+                        let _ = ctx.os.with_node(node as u64, || server.eval(&wp, *md, true));
+                    }
+                    ctx.stats.probe("replicas_that_served_before_their_first_import");
+                }
                 let st: pp::ServerKeyState = bincode::deserialize(&blob).map_err(|e| Violation::new("c.setup", "import", e.to_string()))?;
                 server.set_private_key(st);
                 let model = w.servers[0].model.clone();
